@@ -46,8 +46,23 @@ pub fn composite_strategy(tier: Tier) -> BoxedStrategy<crate::checks::composite:
         1 => Just(AbsGraph { n: 1, att: vec![] }),
         1 => Just(AbsGraph { n: 1, att: vec![(0, 0)] }),
     ];
-    (vec(comp, 3..=kmax), vec(any::<u16>(), 32), any::<bool>(), vec(any::<u16>(), 2..=4), any::<u8>(), vec(any::<u16>(), 0..=3), prop_oneof![1 => Just(0u8), 1 => 1u8..=255])
-        .prop_map(|(comps, order_keys, apx, queried, enc_pick, dup, hub)| crate::checks::composite::CompositeCase { comps, order_keys, apx, queried, enc_pick, dup, hub })
+    (
+        vec(comp, 3..=kmax),
+        vec(any::<u16>(), 32),
+        any::<bool>(),
+        vec(any::<u16>(), 2..=4),
+        any::<u8>(),
+        vec(any::<u16>(), 0..=3),
+        prop_oneof![1 => Just(0u8), 1 => 1u8..=255],
+        prop_oneof![1 => Just(vec![]), 1 => vec((0u8..4, any::<u8>()), 1..=3)],
+    )
+        .prop_map(|(mut comps, order_keys, apx, queried, enc_pick, dup, hub, closed)| {
+            // with closed-form components (up to 60 arguments each) fewer small ones keep the total moderate
+            if !closed.is_empty() {
+                comps.truncate(12);
+            }
+            crate::checks::composite::CompositeCase { comps, order_keys, apx, queried, enc_pick, dup, hub, closed }
+        })
         .boxed()
 }
 
@@ -446,7 +461,7 @@ impl Prop for Statics {
     }
 
     fn rule(&self) -> String {
-        let common = "Frameworks are generated by construction from mixed shapes (random digraphs of six density classes, unions of 2-4 components, cycles with chords, symmetric clusters, fan-in shapes around the hybrid threshold, planted self-attackers, isolated arguments, repeated attack declarations) and presented through ArgumentSet::new_with_labels, the ICCMA'23 reader, the Aspartix reader, or an update history leaving sparse ids; every problem is run with every selectable encoding on a fresh solver object and compared with brute-force reference semantics. About 1% of the cases (0.25% for C01) are disjoint unions of 3-30 (thorough: 45) small components, 20-200 arguments, declared in an interleaved order so that the components' ids are mixed, in ICCMA'23 or Aspartix text with some repeated attack lines: the reference answer is exact by composition (an extension of the union is a product of extensions of the components, for all seven semantics) although the framework is far beyond brute force; in half of them two more arguments u -> h are added and h attacks one argument of every component, which makes ONE connected component of 20-200 arguments whose answers (for all semantics but STG, which is skipped there) are still those of the union because h is defeated by the grounded extension. ";
+        let common = "Frameworks are generated by construction from mixed shapes (random digraphs of six density classes, unions of 2-4 components, cycles with chords, symmetric clusters, fan-in shapes around the hybrid threshold, planted self-attackers, isolated arguments, repeated attack declarations) and presented through ArgumentSet::new_with_labels, the ICCMA'23 reader, the Aspartix reader, or an update history leaving sparse ids; every problem is run with every selectable encoding on a fresh solver object and compared with brute-force reference semantics. About 1% of the cases (0.25% for C01) are disjoint unions of 3-30 (thorough: 45) small components, 20-200 arguments, declared in an interleaved order so that the components' ids are mixed, in ICCMA'23 or Aspartix text with some repeated attack lines: the reference answer is exact by composition (an extension of the union is a product of extensions of the components, for all seven semantics) although the framework is far beyond brute force; in half of them two more arguments u -> h are added and h attacks one argument of every component, which makes ONE connected component of 20-200 arguments whose answers (for all semantics but STG, which is skipped there) are still those of the union because h is defeated by the grounded extension; in half of them 1-3 components with closed-form extensions are added (directed even or odd cycles, chains, symmetric cliques of up to 60 arguments: single components far beyond brute force whose extension families are known). ";
         match self.which {
             Which::C01 => format!("{}A case (labelled attack multiset, presentation kind, semantics, encoder) is non-trivial when the framework has >=2 extensions under the semantics, or no stable extension, or >=2 components, or a self-attacker, or sparse ids, or the hybrid encoder takes its auxiliary branch; distinct = distinct such tuples (labelled graphs, not up to isomorphism).", common),
             Which::C02 | Which::C03 => format!("{}A case (graph, presentation kind, semantics, encoder, argument, certificate flag) is non-trivial when the argument is credulously but not skeptically accepted, or the semantics is PR/SST/STG with >=2 extensions, or ST has no extension in a framework of >=2 components, or (DS-PR) an admissible set attacks the argument; distinct = distinct tuples.", common),
